@@ -313,8 +313,40 @@ def simple_expr(chain, variant, mchain):
     return f"{variant}! {{ x {mchain}, rt::sem::alt9() }}.0"
 
 
+ASYNC_OUTERS = ("join_async", "try_join_async", "join_async_spawn", "try_join_async_spawn")
+
+
+def nest_async(outer, pos, inner_expr):
+    """the same three positions inside an async macro; the outer future is driven to completion on the spot"""
+    t = outer.startswith("try_")
+    R = "futures::future::ready"
+
+    def drive(e):
+        if outer.endswith("_spawn"):
+            return f"rt::sem::on_tokio(move || {e})"
+        return f"rt::sem::spin({e})"
+    if not t:
+        if pos == "body":
+            return drive(f"{outer}! {{ {R}(0i64) |> move |_z: i64| {inner_expr}, {R}(1i64) }}") + ".0"
+        if pos == "cap":
+            return drive(f"{outer}! {{ {R}(0i64) |> {{ let inner = {inner_expr}; move |_z: i64| inner }}, {R}(1i64) }}") + ".0"
+        if pos == "handler":
+            return drive(f"{outer}! {{ {R}(0i64), {R}(1i64), then => move |_a: i64, _b: i64| {R}({inner_expr}) }}")
+    else:
+        i0, i1 = f"{R}(Ok::<i64, ()>(0i64))", f"{R}(Ok::<i64, ()>(1i64))"
+        if pos == "body":
+            return drive(f"{outer}! {{ {i0} |> move |_z: Result<i64, ()>| Ok::<_, ()>({inner_expr}), {i1} }}") + ".map(|p| p.0).unwrap()"
+        if pos == "cap":
+            return drive(f"{outer}! {{ {i0} |> {{ let inner = {inner_expr}; move |_z: Result<i64, ()>| Ok::<_, ()>(inner) }}, {i1} }}") + ".map(|p| p.0).unwrap()"
+        if pos == "handler":
+            return drive(f"{outer}! {{ {i0}, {i1}, map => move |_a: i64, _b: i64| {inner_expr} }}") + ".unwrap()"
+    raise ValueError(pos)
+
+
 def nest_expr(outer, pos, inner_expr):
     """`inner_expr` evaluated inside macro `outer` at position pos: operand closure body / capture block / handler"""
+    if outer in ASYNC_OUTERS:
+        return nest_async(outer, pos, inner_expr)
     t = outer.startswith("try_")
     if pos == "body":
         e = f"{outer}! {{ Some(0i64) |> move |_z: i64| {inner_expr}, Some(1i64) }}"
